@@ -189,9 +189,11 @@ CLAIMED["C15"] = {
     "text": "Specification-level query model (exact set predicates from C03) with theorems: intersect / included predicates are the set-theoretic ones, and degrading the query region to "
             "depth 13 before the 32-bit conversion is EXACT for both modes for every region and every MOC stored at depth <= 13 (degrade_exact_*), plus a proved counterexample for the original "
             "bound-flooring conversion. The real `mocset query` is compared with the specification on regions smaller than / inside / on the edge of storage cells, both storage widths, "
-            "with/without deprecated, sequential and parallel. The defect (false negatives / false positives for regions deeper than depth 13) was repaired.",
+            "with/without deprecated, sequential and parallel; position queries (queryPos_sem) and the `union` command (unionAt_sem: exactly the union of the selected MOCs at the output depth; "
+            "unionAt_is_builder: what the tool's RangeMocBuilder computes for every capacity; same selection as query) are proved and driven too (moc regions, identifier lists, positions; output depths below / at / above the stored ones). "
+            "The defect (false negatives / false positives for regions deeper than depth 13) was repaired.",
     "design_ref": "DESIGN.md §4 C15, §10",
-    "note": TB + "; cone/pos geometry and the union command not driven",
+    "note": TB + "; cone geometry not driven; cdshealpix hash of a position used as oracle",
     "technique": "Lean 4 proof (exactness of degrade-then-convert) + correspondence with the real binary",
 }
 CLAIMED["C16"] = {
